@@ -21,7 +21,7 @@ PadOK(ty, a) == Len(a) >= AlgDim(ty)
 \* expected-vs-logged comparison for one stateless event; returns the failing clause or "ok"
 Stateless(e) ==
   LET ty == e.ty
-      X  == IF e.op = "drift" THEN Id ELSE Decode(ty, e.x) IN
+      X  == IF e.op \in {"drift", "cumfold"} THEN Id ELSE Decode(ty, e.x) IN
   CASE e.op = "mul" ->
          LET Z == Decode(ty, e.out) IN
          IF ~SameElem(Z, Mul(X, Decode(ty, e.y))) THEN "mul"
@@ -50,6 +50,14 @@ Stateless(e) ==
          IF ~e.finite THEN "drift_finite"
          ELSE IF e.dev > 8 * e.n + 8 THEN "drift_unit"
          ELSE IF ~e.spos THEN "drift_scale" ELSE "ok"
+    [] e.op = "cumfold" ->   \* cumprod / cummul: position i holds x_i ... x_1 (left) or x_1 ... x_i (right)
+         LET n == Len(e.xs)
+             Fold[i \in 1..n] == IF i = 1 THEN Decode(ty, e.xs[1])
+                                 ELSE IF e.left THEN Mul(Decode(ty, e.xs[i]), Fold[i - 1])
+                                 ELSE Mul(Fold[i - 1], Decode(ty, e.xs[i])) IN
+         IF Len(e.outs) # n THEN "cumfold_length"
+         ELSE IF \E i \in 1..n : ~SameElem(Decode(ty, e.outs[i]), Fold[i]) THEN "cumfold"
+         ELSE "ok"
     [] e.op = "algadd" -> IF e.out = VAdd(e.x, e.a) THEN "ok" ELSE "algadd"
     [] OTHER -> "unknown_op"
 
